@@ -5,6 +5,7 @@ Shape B: bounded exhaustive product enumeration of id collections / token lists 
 functions; the oracle (pmc/ref/ranges.py) *expands* the produced range notation again and requires
 set equality with the input ids as strings, and re-tokenizes the wrapped text.
 """
+import copy
 import itertools
 import re
 
@@ -17,16 +18,26 @@ RULE = ('(ranges) every subset of the suffix universe up to the stated size for 
         'with gaps up to 60 ids; each as str / objects with .id / objects with .name / objects with both, '
         'format str and list, delimiter _ and -; collections containing one non-encodable id; (fields) the '
         'reactions= / interactions= / BEP reaction fields written by phases and BEPs; (wrap) token lists '
-        '(lengths x token-length patterns x container types) x every max_line_len 30..100 x three line_len. '
+        '(lengths x token-length patterns, one of them with hyphens / colons / commas inside the tokens, x '
+        'container types) x every max_line_len 30..100 x three (thorough: six) line_len x the way the widths '
+        'are given (keyword, positional, left to the default of 80); (phase) every phase writer (cantera and '
+        'omkm IdealGas / StoichSolid, omkm InteractingInterface) x species count x token-length pattern x '
+        'optional fields absent / all present (phases, beps, kinetics, transport, options, note, '
+        'initial_state as tuple / list / dict / str) x every max_line_len 40..100 given by keyword, by '
+        'position or left to the default, and the histories: same call twice, another width first, another '
+        'phase object of another class written in between, species and note edited between two calls. '
         'A case is non-trivial when it has >= 2 ids (a gap, a run, a duplicate or two prefixes) or wraps '
-        'onto more than one line.')
+        'onto more than one line (phase: >= 5 species).')
 ASSUMPTIONS = ['suffixes, prefixes, renderings, token lengths are taken from the finite alphabets stated in bounds',
                'an item "X to Y" denotes prefix + integers X..Y zero-padded to the width of X (reference reader); '
                'list-form elements may carry their double quotes',
                'an id is encodable when the text after its last delimiter is a non-empty run of ASCII digits; '
                'for other ids an error or a verbatim copy are both accepted, an altered id is not',
                'wrapping: line_len >= 4 (three characters are taken by the opening quotes); a line may exceed its '
-               'limit only when it holds a single token']
+               'limit only when it holds a single token',
+               'phase writers: a physical line is measured from its first column (indentation and name= count) to '
+               'the end of the value on that line; the separator the writer puts after the closing quotes (, or )) '
+               'is not measured; elements is a set, its tokens are compared without order']
 EXPLANATION = ('bounded exhaustive enumeration over the real _get_omkm_range / obj_to_cti and the phase / BEP '
                'writers that call them; oracle = independent expansion of the range notation')
 
@@ -41,7 +52,8 @@ DELIMS = ['_', '-']
 BAD = ['abc', 'r{d}x1', 'r{d}1.5', 'r{d}', 'r{d}-5', 'r{d}+5', 'r{d} 5', 'r{d}1{o}0']
 
 TOK_COUNTS = [0, 1, 2, 5, 20, 80]
-TOK_PATTERNS = ['all1', 'all30', 'alt', 'asc', 'one120']
+TOK_PATTERNS = ['all1', 'all30', 'alt', 'asc', 'one120', 'punct']
+WRAP_HOW = ['kw', 'pos', 'omit-max', 'omit-line', 'omit-both']
 CONTAINERS = ['list', 'tuple', 'set', 'dict', 'str']
 
 PLANNED_TAGS = ['ids:empty', 'ids:single', 'ids:run', 'ids:gap', 'ids:duplicate', 'ids:unsorted',
@@ -53,7 +65,17 @@ PLANNED_TAGS = ['ids:empty', 'ids:single', 'ids:run', 'ids:gap', 'ids:duplicate'
                 'field:phase-reactions', 'field:interface-interactions', 'field:bep-cti', 'field:bep-yaml',
                 'field:idealgas-reactions',
                 'wrap:single-line', 'wrap:multi-line', 'wrap:long-token', 'wrap:empty',
-                'wrap:list', 'wrap:tuple', 'wrap:set', 'wrap:dict', 'wrap:str']
+                'wrap:list', 'wrap:tuple', 'wrap:set', 'wrap:dict', 'wrap:str',
+                'wrap-how:kw', 'wrap-how:pos', 'wrap-how:omit-max', 'wrap-how:omit-line', 'wrap-how:omit-both',
+                'phase:cantera.IdealGas', 'phase:cantera.StoichSolid', 'phase:omkm.IdealGas',
+                'phase:omkm.StoichSolid', 'phase:omkm.InteractingInterface',
+                'phase-how:kw', 'phase-how:pos', 'phase-how:default',
+                'phase-hist:single', 'phase-hist:repeat', 'phase-hist:other-width-first',
+                'phase-hist:two-objects', 'phase-hist:edited',
+                'phase-width:<80', 'phase-width:80', 'phase-width:>80', 'phase:single-token-over-width',
+                'phase-wrapped:name', 'phase-wrapped:elements', 'phase-wrapped:species', 'phase-wrapped:phases',
+                'phase-wrapped:beps', 'phase-wrapped:transport', 'phase-wrapped:options', 'phase-wrapped:note',
+                'phase-wrapped:initial_state']
 
 
 def _tierp(tier):
@@ -69,7 +91,12 @@ def bounds(tier):
                 item_kinds=KINDS, forms=FORMS, delimiters=DELIMS, non_encodable=BAD,
                 long_runs='starts 0,5,95,995,9995,99940 x lengths 5,20,60 x every k-th removed (none,2,3,7)',
                 token_counts=TOK_COUNTS, token_patterns=TOK_PATTERNS, containers=CONTAINERS,
-                max_line_len='30..100', line_len='max, max-15, max-31 (>= 4)')
+                max_line_len='30..100',
+                line_len='max, max-15, max-31 (>= 4)' if tier == 'quick' else 'max, max-1, -15, -18, -29, -31 (>= 4)',
+                widths_given=WRAP_HOW, phase_classes=PHASE_CLS, phase_species_counts=PHASE_COUNTS,
+                phase_optional_fields=PHASE_EXTRAS, phase_max_line_len='40..100', phase_width_given=PHASE_HOW,
+                phase_histories=PHASE_HIST,
+                phase_history_widths='multiples of 5, 72, 79, 81' if tier == 'quick' else '40..100')
 
 
 # ------------------------------------------------------------------------------ id building
@@ -233,6 +260,7 @@ def _range_eval(case, ctx):
     all_ok = all(R.encodable(i, d) for i in ids)
     ctx.trace()
     ctx.trans()
+    held = list(objs)
     try:
         out = _get_omkm_range(objs=objs, delimiter=d, format=case['form'])
     except (ValueError, TypeError) as e:
@@ -252,6 +280,20 @@ def _range_eval(case, ctx):
     clause = ('expanded range notation denotes exactly the input ids (none lost, added or renamed)' if all_ok else
               'an id that cannot be encoded is rejected or kept verbatim, never altered')
     ctx.equal(clause, sorted(set(got)), sorted(set(ids)), sig, case)
+    # the caller's collection is left alone: same objects in the same order, carrying the same ids
+    now = [o if isinstance(o, str) else getattr(o, 'id', None) or o.name for o in objs]
+    ctx.true('the collection given to the range function is left unchanged',
+             len(objs) == len(held) and all(a is b for a, b in zip(objs, held)) and now == ids, sig, case,
+             None if now == ids else now[:8], ids[:8])
+    if case['form'] == 'list' and isinstance(out, list) and (len(case['spec']) <= 3 or case.get('long')):
+        # the list handed out is the caller's: emptying it must not change what the next call reports
+        first = list(out)
+        out.clear()
+        out.append('"zz_0000"')
+        ctx.trace()
+        again = _get_omkm_range(objs=objs, delimiter=d, format='list')
+        ctx.true('the list handed out is fresh (editing it does not change the next answer)', again == first,
+                 sig, case, None if again == first else repr(again)[:120], first[:6])
 
 
 def _range_tags(case, ctx):
@@ -446,8 +488,20 @@ def _tok_lengths(n, pattern):
     raise ValueError(pattern)
 
 
-def _tokens(n, pattern):
-    return [_token(j, L) for j, L in enumerate(_tok_lengths(n, pattern))]
+_PUNCT = "-:,./=+[];'&%<>|"
+
+
+def _tokens(n, pattern, salt=0):
+    """n tokens of the pattern; `salt` shifts the index code so that two fields of one object differ."""
+    if pattern == 'punct':
+        # 5..30 characters with a hyphen / colon / comma / ... in the middle (never a blank or a quote)
+        out = []
+        for j in range(n):
+            L = 5 + (j * 7) % 26
+            t = _token(j + salt, L)
+            out.append(t[:L // 2] + _PUNCT[j % len(_PUNCT)] + t[L // 2 + 1:])
+        return out
+    return [_token(j + salt, L) for j, L in enumerate(_tok_lengths(n, pattern))]
 
 
 def _wrap_obj(tokens, container):
@@ -473,6 +527,15 @@ def _wrap_obj(tokens, container):
     raise ValueError(container)
 
 
+def _wrap_order(obj):
+    """The tokens of the object in its present order."""
+    if isinstance(obj, str):
+        return obj.split()
+    if isinstance(obj, dict):
+        return ['%s:%s' % kv for kv in obj.items()]
+    return list(obj)
+
+
 def _wrap_cases(tier):
     for n in TOK_COUNTS:
         for pat in TOK_PATTERNS:
@@ -480,15 +543,22 @@ def _wrap_cases(tier):
                 continue
             for cont in CONTAINERS:
                 for mx in range(30, 101):
-                    for off in (0, 15, 31):
+                    for off in ((0, 15, 31) if tier == 'quick' else (0, 1, 15, 18, 29, 31)):
                         if mx - off < 4:
                             continue
-                        yield dict(part='wrap', n=n, pattern=pat, container=cont, max_line_len=mx, line_len=mx - off)
+                        for how in WRAP_HOW:
+                            # the widths are given by keyword, by position, or left to their default of 80
+                            if (how in ('omit-max', 'omit-both') and mx != 80) or \
+                                    (how in ('omit-line', 'omit-both') and mx - off != 80):
+                                continue
+                            yield dict(part='wrap', n=n, pattern=pat, container=cont, max_line_len=mx,
+                                       line_len=mx - off, how=how)
 
 
 def _wrap_sig(case):
     return dict(part='wrap', container=case['container'], pattern=case['pattern'],
-                n='0' if case['n'] == 0 else ('1' if case['n'] == 1 else 'many'), first=case['line_len'] == case['max_line_len'])
+                n='0' if case['n'] == 0 else ('1' if case['n'] == 1 else 'many'), first=case['line_len'] == case['max_line_len'],
+                how=case.get('how', 'kw'))
 
 
 def _wrap_eval(case, ctx):
@@ -496,7 +566,19 @@ def _wrap_eval(case, ctx):
     sig = _wrap_sig(case)
     obj, exp = _wrap_obj(_tokens(case['n'], case['pattern']), case['container'])
     ll, mx = case['line_len'], case['max_line_len']
-    text = obj_to_cti(obj, line_len=ll, max_line_len=mx)
+    before = copy.deepcopy(obj)
+    how = case.get('how', 'kw')
+    call = {'kw': lambda: obj_to_cti(obj, line_len=ll, max_line_len=mx),
+            'pos': lambda: obj_to_cti(obj, ll, mx),
+            'omit-max': lambda: obj_to_cti(obj, line_len=ll),
+            'omit-line': lambda: obj_to_cti(obj, max_line_len=mx),
+            'omit-both': lambda: obj_to_cti(obj)}[how]
+    text = call()
+    ctx.tag('wrap-how:' + how)
+    ctx.true('obj_to_cti leaves the value it is given unchanged', obj == before and _wrap_order(obj) == exp,
+             sig, case, repr(obj)[:120], repr(before)[:120])
+    ctx.true('obj_to_cti called again with the same arguments gives the same text', call() == text, sig, case,
+             None, text[:120])
     ctx.trace()
     ctx.trans()
     ctx.evals()
@@ -537,16 +619,253 @@ def _wrap_run(shard, ctx):
         ctx.run_case(_wrap_eval, case, _wrap_sig(case))
 
 
+# ------------------------------------------------------------------------------ (phase)
+PHASE_CLS = ['cantera.IdealGas', 'cantera.StoichSolid', 'omkm.IdealGas', 'omkm.StoichSolid',
+             'omkm.InteractingInterface']
+PHASE_COUNTS = [0, 1, 2, 5, 12, 28, 80]
+PHASE_EXTRAS = ['none', 'all']
+PHASE_HOW = ['kw', 'pos', 'default']
+PHASE_HIST = ['single', 'repeat', 'other-width-first', 'two-objects', 'edited']
+PHASE_WIDTHS = list(range(40, 101))
+PHASE_FIELDS = ['name', 'elements', 'species', 'phases', 'beps', 'kinetics', 'transport', 'options', 'note',
+                'initial_state']
+
+CL_PH_WIDTH = 'phase writer: no line of a string field exceeds max_line_len unless it holds a single token'
+CL_PH_TOKENS = 'phase writer: a wrapped field keeps every token in order'
+CL_PH_FORM = 'phase writer: a string field is a quoted CTI string followed by its separator'
+CL_PH_PRESENT = 'phase writer: a non-empty field is written'
+CL_PH_AGAIN = 'phase writer: the same call repeated gives the same text'
+CL_PH_ALONE = 'phase writer: species, phases, options and note of the caller are left unchanged'
+
+
+class _Sp:
+    def __init__(self, name, elements):
+        self.name = name
+        self.elements = elements
+        self.phase = None
+
+
+class _Rxn:
+    def __init__(self, id, bep):
+        self.id = id
+        if bep != 'no-attribute':
+            self.bep = bep
+
+
+def _phase_species(n, pattern, salt):
+    names = _tokens(n, pattern, salt)
+    return [_Sp(nm, {_token(j + salt + 3000, 2): 1, 'H': 2}) for j, nm in enumerate(names)]
+
+
+def _phase_make(cls, n, pattern, extras, salt):
+    """Builds the phase; returns (phase, expectation dict field -> tokens, caller-owned inputs)."""
+    mod, cname = cls.split('.')
+    if mod == 'cantera':
+        import pmutt.cantera.phase as M
+    else:
+        import pmutt.omkm.phase as M
+    K = getattr(M, cname)
+    species = _phase_species(n, pattern, salt)
+    name = 'ph%d_%s' % (salt, cname)
+    kw = dict(name=name, species=species)
+    exp = dict(name=[name], species=[s.name for s in species],
+               elements=sorted({e for s in species for e in s.elements}))
+    own = dict(species=species)
+    if cname == 'StoichSolid':
+        kw['density'] = 12.4
+    if cname == 'InteractingInterface':
+        kw['site_density'] = 2.5e-9
+        kw['phases'] = ['gas']
+        exp['phases'] = ['gas']
+    if extras == 'all':
+        t_list = _tokens(n, pattern, salt + 1000)
+        t_opts = _tokens(n, pattern, salt + 1500)
+        t_note = _tokens(n, pattern, salt + 2000)
+        t_dict, e_dict = _wrap_obj(_tokens(n, pattern, salt + 2500), 'dict')
+        kw['transport'] = tuple(t_list)
+        exp['transport'] = list(t_list)
+        kw['note'] = ' '.join(t_note)
+        exp['note'] = list(t_note)
+        if cname == 'IdealGas':
+            kw['kinetics'] = _token(salt + 7, 11)
+            exp['kinetics'] = [kw['kinetics']]
+            kw['options'] = t_dict
+            exp['options'] = e_dict
+        elif cname == 'StoichSolid':
+            kw['options'] = list(t_opts)
+            exp['options'] = list(t_opts)
+            kw['initial_state'] = t_dict
+            exp['initial_state'] = e_dict
+        else:
+            kw['options'] = list(t_opts)
+            exp['options'] = list(t_opts)
+            # phases given as names and as objects with a name
+            ph_names = _tokens(n, pattern, salt + 3500)
+            kw['phases'] = [nm if j % 2 else _WithName(nm) for j, nm in enumerate(ph_names)]
+            exp['phases'] = list(ph_names)
+            # BEP names are collected from the reactions: two reactions share each BEP, one reaction has no
+            # bep attribute and one has bep None
+            bep_names = _tokens(n, pattern, salt + 600)
+            rx = [_Rxn('r_0000', 'no-attribute'), _Rxn('r_0001', None)]
+            for j, nm in enumerate(bep_names):
+                b = _WithName(nm)
+                rx += [_Rxn('r_%04d' % (2 * j + 2), b), _Rxn('r_%04d' % (2 * j + 3), b)]
+            kw['reactions'] = rx
+            exp['beps'] = list(dict.fromkeys(bep_names))
+        own.update(options=kw['options'], phases=kw.get('phases'))
+    ph = K(**kw)
+    return ph, exp, own
+
+
+def _phase_snapshot(ph, own):
+    return dict(species=[(id(s), s.name, dict(s.elements)) for s in own['species']],
+                options=copy.deepcopy(own.get('options')),
+                phases=[getattr(x, 'name', x) for x in own.get('phases') or []],
+                note=ph.note, transport=ph.transport, same_list=ph.species is own['species'])
+
+
+def _phase_call(ph, width, how):
+    if how == 'kw':
+        return ph.to_cti(max_line_len=width)
+    if how == 'pos':
+        return ph.to_cti(width)
+    return ph.to_cti()
+
+
+def _phase_judge(text, width, exp, sig, case, ctx):
+    """Every string argument of the written directive: well-formed, tokens as given, lines within the width."""
+    seen = set()
+    for name, value, lines, sep in R.cti_string_args(text):
+        fsig = dict(sig, field=name if name in PHASE_FIELDS else 'other')
+        ctx.evals()
+        worst = None
+        for j, (line, ntok) in enumerate(lines):
+            if len(line) > width:
+                if ntok > 1:
+                    worst = (j, len(line), width, line[:140])
+                    break
+                ctx.tag('phase:single-token-over-width')
+        ctx.true(CL_PH_WIDTH, worst is None, fsig, case, worst, 'every line of the field <= max_line_len')
+        ctx.outcome(CL_PH_WIDTH, (name, len(lines), max(len(x[0]) for x in lines)))
+        if len(lines) > 1:
+            ctx.tag('phase-wrapped:' + name)
+        if name not in exp or name in seen:
+            continue
+        seen.add(name)
+        try:
+            got = R.cti_tokens(value)
+            if sep not in (',\n', ')\n'):
+                raise R.Malformed('followed by %r' % sep)
+        except R.Malformed as e:
+            ctx.fail(CL_PH_FORM, fsig, case, '%r (%s)' % (value[:80], e), 'quoted string then , or )')
+            continue
+        ctx.true(CL_PH_FORM, True, fsig, case)
+        if name == 'elements':
+            got = sorted(got)           # a set: any order
+        ctx.equal(CL_PH_TOKENS, got, exp[name], fsig, case)
+    for name, e in exp.items():
+        if name not in seen:
+            # InteractingInterface leaves empty optional fields out
+            ctx.true(CL_PH_PRESENT, not e, dict(sig, field=name), case, 'field not found', e[:6])
+
+
+def _phase_sig(case):
+    return dict(part='phase', cls=case['cls'], hist=case['hist'], how=case['how'], field='-')
+
+
+def _phase_eval(case, ctx):
+    sig = _phase_sig(case)
+    cls, n, pat, extras, w, how, hist = (case[k] for k in ('cls', 'n', 'pattern', 'extras', 'width', 'how', 'hist'))
+    if how == 'default' and w != 80:
+        raise ValueError('default width is 80')
+    ph, exp, own = _phase_make(cls, n, pat, extras, 0)
+    snap = _phase_snapshot(ph, own)
+    ctx.trans()
+    if hist == 'other-width-first':
+        # the same object written at another width first
+        w2 = 140 - w
+        ctx.trace()
+        _phase_judge(_phase_call(ph, w2, 'kw'), w2, exp, sig, case, ctx)
+    elif hist == 'two-objects':
+        # another phase of the next class with other species, written at another width in between
+        cls2 = PHASE_CLS[(PHASE_CLS.index(cls) + 1) % len(PHASE_CLS)]
+        n2 = PHASE_COUNTS[(PHASE_COUNTS.index(n) + 3) % len(PHASE_COUNTS)]
+        ph2, exp2, own2 = _phase_make(cls2, n2, pat, extras, 200)
+        w2 = 140 - w
+        ctx.trace()
+        _phase_judge(_phase_call(ph2, w2, 'kw'), w2, exp2, dict(sig, cls=cls2), case, ctx)
+    ctx.trace()
+    text = _phase_call(ph, w, how)
+    _phase_judge(text, w, exp, sig, case, ctx)
+    ctx.true(CL_PH_ALONE, _phase_snapshot(ph, own) == snap, sig, case, None, 'inputs as before the call')
+    if hist == 'repeat':
+        ctx.trace()
+        ctx.true(CL_PH_AGAIN, _phase_call(ph, w, how) == text, sig, case, None, text[:160])
+    elif hist == 'two-objects':
+        ctx.trace()
+        _phase_judge(_phase_call(ph2, w2, 'kw'), w2, exp2, dict(sig, cls=cls2), case, ctx)
+    elif hist == 'edited':
+        # species appended and the note extended after the first call: the next call writes the new content
+        extra = _Sp(_token(4000, 17), {'Zz': 1})
+        ph.append_species(extra)
+        exp = dict(exp, species=exp['species'] + [extra.name], elements=sorted(set(exp['elements']) | {'Zz'}))
+        if extras == 'all':
+            ph.note = ph.note + ' ' + _token(4001, 9)
+            exp['note'] = exp['note'] + [_token(4001, 9)]
+        ctx.trace()
+        _phase_judge(_phase_call(ph, w, how), w, exp, sig, case, ctx)
+
+
+def _phase_cases(tier):
+    q = tier == 'quick'
+    for cls in PHASE_CLS:
+        for n in PHASE_COUNTS:
+            for pat in TOK_PATTERNS:
+                if n == 0 and pat != 'all1':
+                    continue
+                for extras in PHASE_EXTRAS:
+                    for w in PHASE_WIDTHS:
+                        base = dict(part='phase', cls=cls, n=n, pattern=pat, extras=extras, width=w)
+                        yield dict(base, how='kw', hist='single')
+                        yield dict(base, how='pos', hist='single')
+                        if w == 80:
+                            yield dict(base, how='default', hist='single')
+                        if q and w % 5 and w not in (72, 79, 81):
+                            continue
+                        for hist in PHASE_HIST[1:]:
+                            yield dict(base, how='kw', hist=hist)
+                            if w == 80:
+                                yield dict(base, how='default', hist=hist)
+
+
+def _phase_run(shard, ctx):
+    for i, case in enumerate(_phase_cases(shard['tier'])):
+        if i % shard['n'] != shard['k']:
+            continue
+        key = repr(sorted(case.items()))
+        ctx.state(key)
+        if case['n'] >= 5:
+            ctx.nontrivial(key)
+        ctx.tag('phase:' + case['cls'])
+        ctx.tag('phase-how:' + case['how'])
+        ctx.tag('phase-hist:' + case['hist'])
+        ctx.tag('phase-width:' + ('<80' if case['width'] < 80 else ('80' if case['width'] == 80 else '>80')))
+        if i % 9001 == 0:
+            ctx.sample(case, limit=1)
+        ctx.run_case(_phase_eval, case, _phase_sig(case))
+
+
 # ------------------------------------------------------------------------------ module API
-_EVAL = dict(range=_range_eval, field=_field_eval, wrap=_wrap_eval)
-_SIG = dict(range=_range_sig, field=_field_sig, wrap=_wrap_sig)
-_RUN = dict(range=_range_run, field=_field_run, wrap=_wrap_run)
+_EVAL = dict(range=_range_eval, field=_field_eval, wrap=_wrap_eval, phase=_phase_eval)
+_SIG = dict(range=_range_sig, field=_field_sig, wrap=_wrap_sig, phase=_phase_sig)
+_RUN = dict(range=_range_run, field=_field_run, wrap=_wrap_run, phase=_phase_run)
 
 
 def shards(tier):
     q = tier == 'quick'
     out = []
-    for part, n in (('range', 12 if q else 32), ('field', 2 if q else 2), ('wrap', 4 if q else 4)):
+    for part, n in (('range', 12 if q else 32), ('field', 2 if q else 2), ('wrap', 4 if q else 8),
+                    ('phase', 8 if q else 16)):
         out += [dict(part=part, tier=tier, k=k, n=n) for k in range(n)]
     return out
 
@@ -564,7 +883,8 @@ LEVEL_TEXT = ('Bounded exhaustive enumeration of id collections (subsets, orderi
               'renderings, item kinds, output forms, delimiters) on the real _get_omkm_range and of token lists x '
               'line widths on the real obj_to_cti; the produced range notation is expanded again by an '
               'independent reader and must denote exactly the input ids; wrapped text is re-tokenized and every '
-              'line measured; the phase / BEP writers\' range fields are checked the same way.')
+              'line measured; the phase / BEP writers\' range fields are checked the same way; every string field of '
+              'every phase writer is re-tokenized and its physical lines measured for every max_line_len 40..100.')
 LEVEL_NOTE = ('Suffix universe of 11 integers, subsets up to 4 (quick) / 6 (thorough) ids per prefix plus long runs '
               'up to 60 ids; every ordering only for sizes <= 4; non-sorted orderings and multi-prefix cases take '
               'one (kind, form, delimiter) combination each in rotation.')
